@@ -294,6 +294,8 @@ class SSH_Socket(ReadBuf, WriteBuf):
             else:
                 payload = self.read(payload_length)
                 header.write(payload)
+            if len(payload) == 0:  # There is no message type to read; treat it like any other unreadable packet.
+                raise SSH_Socket.InsufficientReadException('empty packet')
             packet_type = ord(payload[0:1])
             if sshv == 1:
                 rcrc = SSH1.crc32(padding + payload)
